@@ -93,7 +93,7 @@ func checkC03(r *Run) {
 
 	// ---- R1 guard (lockset restricted to the pointer table rows)
 	applyLockRules(r, p, lockRuleSet{Prefix: "C03.R1", Scope: func(fn *FuncNode) bool { return fn.InPkgs("cesium/internal/domain") },
-		Guards: cesiumGuards[:2], MinOps: 30, MinAcc: 25})
+		Guards: cesiumGuards[:2], MinOps: 30, MinAcc: 25, Entry: exportedEntry})
 
 	checkInsert(r, p, ptrField)
 	checkUpdate(r, p, ptrField)
